@@ -74,13 +74,13 @@ def ren(old, new, minimum=1):
                 lambda t: rx.subn(new, t), minimum)
 
 
-def members(names, self='self', minimum=1):
+def members(names, self='self', minimum=1, arrow='->'):
     names = sorted(names, key=len, reverse=True)
     rx = re.compile(r'(?<![\w.>:])(?<!->)(' + '|'.join(re.escape(n) for n in names) + r')(?![\w])')
 
     def fn(t):
-        return rx.subn(lambda m: '%s->%s' % (self, m.group(1)), t)
-    return Rule('members', '{%s} -> %s->' % (','.join(names), self), fn, minimum)
+        return rx.subn(lambda m: '%s%s%s' % (self, arrow, m.group(1)), t)
+    return Rule('members', '{%s} -> %s%s' % (','.join(names), self, arrow), fn, minimum)
 
 
 def refs(names, minimum=1):
